@@ -118,7 +118,13 @@ func genCrafted(t *rapid.T, a int) []Op {
 		}
 	}
 	base := plainMeta(t)
-	switch rapid.SampledFrom([]string{"shift", "shift", "shift", "shift-sleep", "swap", "noop-then-real", "revert"}).Draw(t, "crafted") {
+	switch rapid.SampledFrom([]string{"shift", "shift", "shift", "shift-sleep", "swap", "noop-then-real", "revert", "rereg", "rereg"}).Draw(t, "crafted") {
+	case "rereg": // become inactive, restart (the session is not restored), register again under the same id
+		how := rapid.SampledFrom([]string{"markdead", "markdead", "exit", "killdate"}).Draw(t, "inactive-by")
+		ops = append(ops, Op{K: how, A: a, T: "rereg"}, Op{K: "restart", T: "rereg"}, Op{K: "reg", A: a, T: "rereg"})
+		if rapid.Bool().Draw(t, "then-restart-again") {
+			ops = append(ops, Op{K: "restart", T: "rereg"})
+		}
 	case "shift":
 		b, l1, r1, l2, r2 := genShift(t)
 		m1, m2 := base, base
